@@ -11,6 +11,10 @@ THEOREMS = [
     "Spowtd.flags_shift_invariant",
     "Spowtd.zone_change_is_shift",
     "Spowtd.crossings_shift_x",
+    "Spowtd.rebase_shift",
+    "Spowtd.alignSeries_shift",
+    "Spowtd.recession_curve_shift",
+    "Spowtd.rise_curve_shift",
 ]
 TRUSTED_BASE = TRUSTED
 ASSUMPTIONS = ASSUME + [
@@ -147,8 +151,7 @@ def curves_across_origins(ctx, n, k):
 
 def replay(ctx, doc):
     if "truth" in doc.get("input", {}):
-        print("replay of master-curve origin cases: rerun the check with VERIF_SEED=%s" % doc.get("seed"))
-        return True
+        return None   # re-run the stream with the recorded seed (check.py does it)
     a, b = doc["input"]["first"], doc["input"]["second"]
     out = []
     for x in (a, b):
